@@ -116,4 +116,41 @@ theorem iter_agrees_with_pass (msg : Bytes) (h : Header) (qs : List Question) (r
                 rw [recordsDrain_succ, drain_sim msg hchain _ _ hS _ _ [] (by omega) (by omega)]
                 simp
 
+
+/-! ### sequential access vs marker-based random access -/
+
+theorem cur_eq_withPos {msg : Bytes} {r : Reader} (hinv : RInv msg r) (horig : r.cur.orig = none) :
+    r.cur = Cur.withPos msg r.cur.pos := by
+  have hf := hinv.2
+  simp only [Cur.full, horig, Option.getD_none] at hf
+  cases hc : r.cur with
+  | mk l p o =>
+    rw [hc] at hf horig
+    simp only at hf horig
+    subst hf; subst horig
+    rfl
+
+/-- **sequential typed read = random access.**  Whatever `record_data::<D>(marker)` returned when the
+    record was read in sequence, `record_data_at::<D>(marker)` returns — from any reader over the same
+    message, at any later time. -/
+theorem data_eq_dataAt (msg : Bytes) (t : RType) (r r' : Reader) (m : Marker) (v : RData) (hinv : RInv msg r)
+    (h : r.data msg t m = (.ok v, r')) (r2 : Reader) (hinv2 : RInv msg r2) : r2.dataAt msg t m = .ok v := by
+  obtain ⟨hpos, _, c2, t2, hrd, _, _⟩ := data_inv h
+  have horig := (C04.rdata_exact t msg r.cur c2 m.rdlen v hinv.1 hrd).2.2.2.1
+  have hc := cur_eq_withPos hinv horig
+  rw [hpos] at hc
+  unfold Reader.dataAt
+  rw [cloneWithPos_eq hinv2, ← hc, hrd]
+
+/-- **sequential raw read = random access** -/
+theorem dataBytes_eq_dataBytesAt (msg : Bytes) (r r' : Reader) (m : Marker) (b : Bytes) (hinv : RInv msg r)
+    (horig : r.cur.orig = none) (h : r.dataBytes msg m = (.ok b, r')) (r2 : Reader) (hinv2 : RInv msg r2) :
+    r2.dataBytesAt msg m = .ok b := by
+  obtain ⟨hpos, _, c2, t2, hsl, _, _⟩ := dataBytes_inv h
+  have hc := cur_eq_withPos hinv horig
+  rw [hpos] at hc
+  unfold Reader.dataBytesAt
+  rw [cloneWithPos_eq hinv2, ← hc, hsl]
+
+
 end Rsdns.C08
